@@ -348,6 +348,26 @@ func drawCERSpec(t *Tape, wantAccept int) cerSpec {
 	for i := 0; i < n; i++ {
 		s.entries = append(s.entries, drawEntry(t))
 	}
+	if t.Chance(1, 40) {
+		// a peer that lists hundreds of applications of one kind (counts around 255/256/257 and beyond)
+		kind := []string{"auth", "acct"}[t.Draw(2)]
+		cnt := []int{254, 255, 256, 257, 300, 520}[t.Draw(6)]
+		okAt := t.Draw(cnt) // where the one supported application sits, if any
+		hasOK := t.Chance(2, 3)
+		var many []appEntry
+		for i := 0; i < cnt; i++ {
+			en := appEntry{kind: kind, id: uint32(20000 + i)}
+			if hasOK && i == okAt {
+				en.id = entryID(kind, 0, t.Draw(5))
+			}
+			many = append(many, en)
+		}
+		if t.Chance(1, 2) {
+			s.entries = append(many, s.entries...)
+		} else {
+			s.entries = append(s.entries, many...)
+		}
+	}
 	if t.Chance(1, 8) {
 		s.host = false
 	}
